@@ -1,4 +1,4 @@
 SPECIFICATION XSpec
-CONSTANTS PairSrc = "file" CtxU = "falsyq" MaxFlow = 0 KeyU = "six"
+CONSTANTS PairSrc = "file" CtxU = "falsyq" MaxFlow = 0 KeyU = "six" Writ = "ends"
 INVARIANT EmitClasses
 CHECK_DEADLOCK FALSE
